@@ -161,7 +161,7 @@ impl RtpsWriterProxy {
         // from the RTPS Writer with SequenceNumber_t smaller than or equal to a_change.sequenceNumber that have status MISSING or UNKNOWN.
 
         max(
-            self.first_available_seq_num - 1,
+            self.first_available_seq_num.saturating_sub(1),
             self.highest_received_change_sn,
         )
     }
